@@ -117,6 +117,8 @@ func runAllocs(out *bufio.Writer, st *Stats, r *Rng, tier string) {
 				win := b.Slice(0, b.Capacity()).Slice(1, 2) // a window with spare capacity inside b
 				empty := Alloc(k, false, signal.Allocator{Channels: ch, Length: 0, Capacity: 0})
 				measure(out, st, "appendInPlace", det+"/window-empty-src", func() { win.Append(empty) })
+				win2 := b.Slice(0, b.Capacity()).Slice(1, 2) // spare capacity for allocRuns+1 more frames
+				measure(out, st, "appendInPlace", det+"/window", func() { win2.Append(one) })
 				// pool get/put cycle
 				p := NewPool(k, signal.Allocator{Channels: ch, Length: L, Capacity: L + 2})
 				p.Put(p.Get())
